@@ -289,7 +289,7 @@ def b_round(ex, pos, kws, st):
         k = M.fresh("rk", M.I)
         s.assume(r * sc == z3.ToReal(k), (r - M.fval(z)) * sc <= z3.RealVal("1/2"),
                  (M.fval(z) - r) * sc <= z3.RealVal("1/2"))
-        out.append((s, T(M.FloatV(r), "float")))
+        out.append((s, T(M.float_from_real(r), "float")))
     return out
 
 
